@@ -283,6 +283,33 @@ func sesqStable(t *testing.T, r *Rec, lines []string) ([]string, bool) {
 // famSesWtq: random histories over WebTransport, WebSocket and polling sessions
 // in real time (C01 C02 C03 C04 C12 C18 through monitorSession; no timers).
 func famSesWtq(t *testing.T, r *Rec) {
+	// a session that lives long enough to receive, in frames each well below the limit, more than the limit in total:
+	// the limit is per message
+	for _, lim := range []int{300, 1000} {
+		g := &sesGen{r: r, I: 25000, T: 20000, rt: true}
+		g.add(fmt.Sprintf("ses cfg 25000 20000 60000 %d polling,websocket,webtransport 1 0 - 0 -", lim))
+		ss := &gSess{ord: 0, transport: "webtransport", proto: 4, conn: 0, poll: -1, hsReq: -1, reqs: map[int]string{}}
+		g.nconn = 1
+		g.sess = append(g.sess, ss)
+		g.add("ses hs webtransport 4 0 -")
+		for k := 0; k < 8; k++ {
+			m := rmsg{"t", bytes_repeat(byte('a'+k), lim/3)}
+			ss.posted = append(ss.posted, m)
+			g.add(fmt.Sprintf("ses frame 0 t %s", hx(append([]byte("4"), m.data...))))
+		}
+		g.add("ses obs")
+		q := toSesq(g.lines)
+		outs, ok := sesqStable(t, r, q)
+		if !ok {
+			continue
+		}
+		r.scenarios++
+		r.Cover(fmt.Sprintf("wtq/many-frames-below-the-limit/limit=%d", lim))
+		for i, l := range q {
+			r.Op(l, outs[i])
+		}
+		monitorSession(r, g, outs)
+	}
 	n := 5
 	if r.thorough() {
 		n = 60
